@@ -298,6 +298,29 @@ Theorem C09_memo_executor_refuted :
 Proof. exact memo_executor_refuted. Qed.
 Print Assumptions C09_memo_executor_refuted.
 
+(* rendering the same object value again: fine for a generator that leaves the caller's lists alone,
+   not for one that compacts them in place (slices.DeleteFunc on the input) *)
+Theorem C09_dedupe_pure_rerender :
+  forall l, fst (dedupe_pure (snd (dedupe_pure l))) = fst (dedupe_pure l).
+Proof. exact dedupe_pure_rerender. Qed.
+Print Assumptions C09_dedupe_pure_rerender.
+
+Theorem C09_dedupe_inplace_refuted :
+  exists l, fst (dedupe_inplace (snd (dedupe_inplace l))) <> fst (dedupe_inplace l).
+Proof. exact dedupe_inplace_refuted. Qed.
+Print Assumptions C09_dedupe_inplace_refuted.
+
+(* across processes: a shortened name may be completed by a hash of the name, not by a per-process seed *)
+Theorem C09_namer_seed_free :
+  forall cap h, (forall s1 s2 x, h s1 x = h s2 x) -> forall s1 s2 x, namer cap h s1 x = namer cap h s2 x.
+Proof. exact namer_seed_free. Qed.
+Print Assumptions C09_namer_seed_free.
+
+Theorem C09_namer_seeded_refuted :
+  exists h s1 s2 x, namer 4 h s1 x <> namer 4 h s2 x.
+Proof. exact namer_seeded_refuted. Qed.
+Print Assumptions C09_namer_seeded_refuted.
+
 (* ---------------------------------------------------------------- the hypotheses are met / concrete witnesses *)
 
 Definition secret3 : smap string := of_list [("client-b", "k2"); ("client-a", "k1"); ("client-c", "k3")].
